@@ -1145,6 +1145,41 @@ def esn_probe():
     return out
 
 
+def ragged_model_probe():
+    """A never-run MODEL given sequences whose feature counts disagree (inputs or targets; fit or run): refused, with every node as it was.
+    (For a single node this is what commit 7fd0837 repaired; Model.fit / Model.run validate lazily, sequence by sequence.)"""
+    rpy()
+    from reservoirpy.nodes import Reservoir, Ridge
+    out = []
+
+    def probe(tag, build, op):
+        nodes, m = build()
+        before = [(n.is_initialized, n.input_dim, n.output_dim) for n in nodes]
+        try:
+            op(m)
+            exc = None
+        except Exception as e:  # noqa: BLE001
+            exc = e
+        after = [(n.is_initialized, n.input_dim, n.output_dim) for n in nodes]
+        if exc is None or before != after:
+            out.append(("late-rejection:ragged-feature-count:uninitialised-model",
+                        "%s on a never-run model: sequences with different feature counts are %s; nodes before %s, after %s"
+                        % (tag, "accepted" if exc is None else "refused (%s) only after the model was initialised and the first sequence processed" % type(exc).__name__,
+                           before, after)))
+
+    def chain():
+        r, o = Reservoir(4, name=uname("rgm")), Ridge(ridge=0.5, name=uname("rgm"))
+        return [r, o], r >> o
+    probe("Model.fit([x3, x4], [y, y])", chain, lambda m: m.fit([np.ones((6, 3)), np.ones((6, 4))], [np.ones((6, 1)), np.ones((6, 1))]))
+    probe("Model.fit([x, x], [y1, y2])", chain, lambda m: m.fit([np.ones((6, 3)), np.ones((6, 3))], [np.ones((6, 1)), np.ones((6, 2))]))
+
+    def two():
+        r, r2 = Reservoir(4, name=uname("rgm")), Reservoir(3, name=uname("rgm"))
+        return [r, r2], r >> r2
+    probe("Model.run([x3, x4])", two, lambda m: m.run([np.ones((6, 3)), np.ones((6, 4))]))
+    return out[:1]
+
+
 def oracle(ctx, scale=1):
     rng = ctx.rng("oracle")
     cases = directed_cases() + [gen_case(rng, i) for i in range(ctx.n(300, 3000) * scale)]
@@ -1174,7 +1209,11 @@ def oracle(ctx, scale=1):
         if key not in seen:
             seen.add(key)
             out.append({"key": key, "what": what, "scenario": {"esn_probe": True}, "expected": None, "observed": what})
-    return {"evaluations": len(cases) + len(links) + len(models) + 4, "violations": out,
+    for key, what in ragged_model_probe():
+        if key not in seen:
+            seen.add(key)
+            out.append({"key": key, "what": what, "scenario": {"ragged_model_probe": True}, "expected": "an exception, every node untouched", "observed": what})
+    return {"evaluations": len(cases) + len(links) + len(models) + 7, "violations": out,
             "rule": "on the real nodes, per operation: (i) dims never change once known; (ii) unsupported operations, non-array / non-numeric data, "
                     "lists where arrays are required and data whose feature size differs from the node's dims raise AND leave dims, state bytes and every "
                     "param bit-identical; (iii) accepted well-formed input of T steps returns (T, output_dim); (iv) state() is (1, output_dim) after any "
@@ -1198,6 +1237,9 @@ def replay(payload):
         return {"violates": bool(v), "detail": v}
     if sc.get("esn_probe"):
         v = [k for k, _ in esn_probe() if k == payload.get("key")]
+        return {"violates": bool(v), "detail": v}
+    if sc.get("ragged_model_probe"):
+        v = ragged_model_probe()
         return {"violates": bool(v), "detail": v}
     vs = [v for v in _judge(sc) if payload.get("key") in (None, v["key"])]
     return {"violates": bool(vs), "detail": vs[:1]}
